@@ -34,7 +34,8 @@ struct Tape {
 	size_t n, pos;
 	Tape(const std::vector<uint32_t> &t) : v(t.data()), n(t.size()), pos(0) {}
 	Tape(const uint32_t *p, size_t cnt) : v(p), n(cnt), pos(0) {}
-	uint32_t raw() { return pos < n ? v[pos++] : 0; }
+	size_t over = 0; // reads past the end of the tape (answered with 0); reported as a label so a too-short tape is visible
+	uint32_t raw() { if (pos < n) return v[pos++]; over++; return 0; }
 	// inclusive range; tape value 0 -> lo (the "simplest" choice)
 	uint64_t range(uint64_t lo, uint64_t hi) {
 		uint32_t r = raw();
